@@ -315,6 +315,14 @@ func TestGenC08(t *testing.T) {
 				q.fail("c08:write-failed", err.Error())
 				break
 			}
+			if rr.chance(1, 25) {
+				// a second WriteMessage before the flush is refused; a refused call must not touch the key/nonce schedule
+				e := mach[d].WriteMessage(rr.bytes(5))
+				q.check(e != nil, "c08:second-record-accepted-before-flush", func() string {
+					return fmt.Sprintf("scenario %d dir %d record %d: WriteMessage while a record is pending returned nil", sc, d, done[d])
+				})
+				q.stat("refused_writes", 1)
+			}
 			if _, err := mach[d].Flush(&wire); err != nil {
 				q.fail("c08:flush-failed", err.Error())
 				break
